@@ -12,6 +12,9 @@ use tsrun::{api, Interpreter, JsError, JsValue, OrderId, OrderResponse, RuntimeV
 pub enum Act { Val(u64), Err(u64), Defer(u64), Resolve(u64), Reject(u64), AllVal, Unknown, Dup(u64), Spurious, Spurious2 }
 
 struct World { strict_complete: bool, i: Interpreter, log: Log, issued: Vec<(u64, String)>, answered: BTreeMap<u64, String>, cancelled: Vec<u64>, promises: Vec<(u64, RuntimeValue)>,
+    /// host promises already settled: a careful host keeps its handle until the run is over (the answer that
+    /// carried the promise may not have been consumed yet)
+    keep: Vec<RuntimeValue>,
     settled: BTreeMap<u64, String>, last: String, done: bool, viol: Vec<String>, gc: bool }
 
 pub fn err_text(p: &str) -> String { JsError::type_error(format!("e:{}", p)).to_string() }
@@ -58,7 +61,7 @@ fn run_until_block(w: &mut World) {
 fn start(src: &str, gc: bool, strict: bool) -> World {
     let (mut i, log) = new_interp();
     if gc { i.set_gc_threshold(1); }
-    let mut w = World { strict_complete: strict, i, log, issued: vec![], answered: BTreeMap::new(), cancelled: vec![], promises: vec![], settled: BTreeMap::new(), last: String::new(), done: false, viol: vec![], gc };
+    let mut w = World { strict_complete: strict, i, log, issued: vec![], answered: BTreeMap::new(), cancelled: vec![], promises: vec![], keep: vec![], settled: BTreeMap::new(), last: String::new(), done: false, viol: vec![], gc };
     match w.i.prepare(&format!("import {{ order, __cancelOrder__ }} from 'tsrun:host';\n{}", src), None) { Ok(_) => run_until_block(&mut w), Err(e) => { w.last = format!("PE({})", errclass(&e)); w.done = true; } }
     w
 }
@@ -85,9 +88,9 @@ fn apply(w: &mut World, a: Act) {
         Act::Err(id) => { let p = payload_of(w, id); w.i.fulfill_orders(vec![OrderResponse { id: OrderId(id), result: Err(JsError::type_error(format!("e:{}", p))) }]); w.answered.insert(id, "err".into()); }
         Act::Defer(id) => { let p = api::create_order_promise(&mut w.i, OrderId(id)); let pv = RuntimeValue::unguarded(p.value().clone()); w.promises.push((id, p));
             w.i.fulfill_orders(vec![OrderResponse { id: OrderId(id), result: Ok(pv) }]); w.answered.insert(id, "defer".into()); }
-        Act::Resolve(id) => { if let Some(k) = w.promises.iter().position(|(i, _)| *i == id) { let (_, p) = w.promises.remove(k); let pl = payload_of(w, id); let _ = api::resolve_promise(&mut w.i, &p, sval(&pl)); w.settled.insert(id, "val".into()); } }
+        Act::Resolve(id) => { if let Some(k) = w.promises.iter().position(|(i, _)| *i == id) { let (_, p) = w.promises.remove(k); let pl = payload_of(w, id); let _ = api::resolve_promise(&mut w.i, &p, sval(&pl)); w.settled.insert(id, "val".into()); w.keep.push(p); } }
         Act::Reject(id) => { if let Some(k) = w.promises.iter().position(|(i, _)| *i == id) { let (_, p) = w.promises.remove(k); let pl = payload_of(w, id);
-            let _ = api::reject_promise(&mut w.i, &p, RuntimeValue::unguarded(JsValue::from(err_text(&pl)))); w.settled.insert(id, "err".into()); } }
+            let _ = api::reject_promise(&mut w.i, &p, RuntimeValue::unguarded(JsValue::from(err_text(&pl)))); w.settled.insert(id, "err".into()); w.keep.push(p); } }
         Act::Unknown => { w.i.fulfill_orders(vec![OrderResponse { id: OrderId(987_654), result: Ok(RuntimeValue::unguarded(JsValue::from("UNKNOWN"))) }]); }
         Act::Dup(id) => { w.i.fulfill_orders(vec![OrderResponse { id: OrderId(id), result: Ok(RuntimeValue::unguarded(JsValue::from("DUPLICATE"))) }]); }
         Act::Spurious => {}
